@@ -12,5 +12,24 @@ pub use read_schema::*;
 /// drivers set explicitly): re-export of the crate-private query text printer.
 #[cfg(kani)]
 pub mod verif_hooks {
-    pub use crate::query_text::generate_query_text;
+    use common_lang_types::{QueryOperationName, QueryText};
+    use crate::GraphQLOperationKind;
+    use isograph_lang_types::VariableDeclaration;
+    use isograph_schema::{Format, WrappedMergedSelectionMap};
+
+    pub fn generate_query_text<'a>(
+        operation_kind: GraphQLOperationKind,
+        query_name: QueryOperationName,
+        selection_map: &WrappedMergedSelectionMap,
+        query_variables: impl Iterator<Item = &'a VariableDeclaration> + 'a,
+        format: Format,
+    ) -> QueryText {
+        crate::query_text::generate_query_text(
+            operation_kind,
+            query_name,
+            selection_map,
+            query_variables,
+            format,
+        )
+    }
 }
